@@ -31,7 +31,7 @@ type C10Case struct {
 	Decrypt bool      `json:"decrypt"`
 	Calls   []C10Call `json:"calls"`
 	// second, independent split plan for the inverse direction
-	Inverse []int `json:"inverse"`
+	Inverse []int  `json:"inverse"`
 	Via     string `json:"via"` // direct | stream
 	// IVSpare: the IV handed over is the first 16 bytes of a buffer with this much room behind it
 	IVSpare int `json:"iv_spare,omitempty"`
